@@ -949,7 +949,8 @@ class UniformGrid(_HyperRectangleGrid):
             )
 
         # Calculate step-size of the cube.
-        step_sizes = np.array([np.linalg.norm(axis) for axis in self.axes])
+        # (signed: an axis may point in the negative direction)
+        step_sizes = np.diagonal(self.axes)
         coord = np.array([(point[i] - self.origin[i]) / step_sizes[i] for i in range(self.ndim)])
 
         if which == "origin":
